@@ -6,7 +6,7 @@
    explicit parameters of the statements; nothing is assumed globally. *)
 From Coq Require Import List String NArith ZArith Bool Permutation.
 From GoMC Require Import Base.Bytes Base.Dec Gen.Consts Gen.Gate Model.C05 Model.C07 Model.C19_syntax Model.C19
-  Proofs.C07 Proofs.C19_net Proofs.C19_gate Proofs.C19_play Proofs.C19_disp Proofs.C19_expected Proofs.C19_skel Proofs.C19_reg.
+  Proofs.C07 Proofs.C19_net Proofs.C19_gate Proofs.C19_play Proofs.C19_disp Proofs.C19_expected Proofs.C19_skel Proofs.C19_reg Proofs.C19_skel_disp.
 Import ListNotations.
 Open Scope Z_scope.
 
@@ -260,6 +260,68 @@ Theorem C19_skeleton_bot_ping_writes :
          = (w2, b_set b (BStatusPong json (bc_time c))).
 Proof. exact bot_ping_prelude_is_source. Qed.
 
+(* the dispatcher: bot/event.go (AddListener, AddGeneric, sortPacketHandlers) and bot/ingame.go (HandleGame,
+   handleBundlePackets, handlePacket) rendered from the repository are the recorded bodies ... *)
+Theorem C19_skeleton_dispatch_source :
+  Gate.bot_add_listener = expected_bot_add_listener /\ Gate.bot_add_generic = expected_bot_add_generic /\
+  Gate.bot_sort_packet_handlers = expected_bot_sort_packet_handlers /\
+  Gate.bot_handle_game = expected_bot_handle_game /\
+  Gate.bot_handle_bundle_packets = expected_bot_handle_bundle_packets /\
+  Gate.bot_handle_packet = expected_bot_handle_packet.
+Proof. exact dispatch_skel_ok. Qed.
+(* ... and the model's dispatcher makes the decisions they prescribe: the sort call is the STABLE sort
+   with the descending-priority comparator (whose specification ssort meets and which determines its
+   result); add_listener1 / add_generic are the statements of AddListener's range body / AddGeneric ... *)
+Theorem C19_skeleton_dispatch_register :
+  (exists spec, sort_sem Gate.bot_sort_packet_handlers = Some spec /\
+     forall l, spec l (ssort l) /\ forall r, spec l r -> r = ssort l) /\
+  (forall (e : events) (l : handler),
+     same_events (add_listener1 e l) (run_reg 10 (range_body Gate.bot_add_listener) e l)) /\
+  (forall e ls, run_generic Gate.bot_add_generic e ls = Some (add_generic e ls)).
+Proof. exact register_is_source. Qed.
+(* ... handle_packet is handlePacket's two range loops in source order, each returning the
+   PacketHandlerError of its first failing handler ... *)
+Theorem C19_skeleton_dispatch_packet :
+  forall (fails : N -> N -> bool) (e : events) (p : pkt),
+  run_loops fails 10 Gate.bot_handle_packet e p = Some (handle_packet fails e p).
+Proof. exact handle_packet_is_source. Qed.
+(* ... and every step of the model's HandleGame machine is the decision of the corresponding source
+   loop: delimiter -> handleBundlePackets, else handlePacket and `return err`; inside a bundle:
+   delimiter -> goto the dispatch of the collected packets (handle_all = the range loop with
+   `return err` on the first failure, `return nil` at the end), else append, bounded by the literal
+   of the for header = bundle_cap *)
+Theorem C19_skeleton_dispatch_game :
+  forall (fails : N -> N -> bool),
+  (forall (e : events) (p : pkt) (t : list pkt),
+     game fails e MNormal (p :: t) =
+     match top_decision Gate.bot_handle_game p with
+     | DBundle => game fails e (MBundle 0 []) t
+     | DPacket =>
+         let '(cs, r) := handle_packet fails e p in
+         match r with
+         | Some o => (cs, o)
+         | None => let '(cs', o) := game fails e MNormal t in (cs ++ cs', o)
+         end
+     | _ => ([], OPanic)
+     end) /\
+  exists body tail,
+    bundle_loop Gate.bot_handle_bundle_packets = Some (bundle_cap, body, tail) /\
+    (forall e ps, run_tail fails tail e ps = Some (handle_all fails e ps)) /\
+    forall (e : events) (i : Z) (acc : list pkt) (p : pkt) (t : list pkt),
+      game fails e (MBundle i acc) (p :: t) =
+      match bundle_decision body p with
+      | DGoto =>
+          let '(cs, r) := handle_all fails e (rev acc) in
+          match r with
+          | Some o => (cs, o)
+          | None => let '(cs', o) := game fails e MNormal t in (cs ++ cs', o)
+          end
+      | DAppend =>
+          if bundle_cap <=? i + 1 then ([], OBundleLimit) else game fails e (MBundle (i + 1) (p :: acc)) t
+      | _ => ([], OPanic)
+      end.
+Proof. exact game_is_source. Qed.
+
 (* ------------------------------------------------------------------ the hypotheses are satisfiable *)
 Definition ex_uuid (n : list N) : list N := rev n ++ [7%N].
 Definition ex_bc : bcfg :=
@@ -333,3 +395,7 @@ Print Assumptions C19_skeleton_server_login.
 Print Assumptions C19_skeleton_server_config.
 Print Assumptions C19_skeleton_bot_join_writes.
 Print Assumptions C19_skeleton_bot_ping_writes.
+Print Assumptions C19_skeleton_dispatch_source.
+Print Assumptions C19_skeleton_dispatch_register.
+Print Assumptions C19_skeleton_dispatch_packet.
+Print Assumptions C19_skeleton_dispatch_game.
